@@ -55,11 +55,11 @@ EnTab == [i \in 1..8 |->
    CASE i = 1 -> {l \in Levels : l >= -1}     \* DebugLevel
      [] i = 2 -> {l \in Levels : l >= 1}      \* WarnLevel
      [] i = 3 -> {l \in Levels : l >= 5}      \* FatalLevel
-     [] i = 4 -> {l \in Levels : l >= -2}     \* Level(-2): out-of-range threshold below Debug
+     [] i = 4 -> {l \in Levels : l >= -2}     \* Level(-128): out-of-range threshold below Debug (enables every level)
      [] i = 5 -> {l \in Levels : l >= 7}      \* Level(7): out-of-range threshold above Invalid
      [] i = 6 -> {0, 2}                       \* func: exactly Info and Error (non-monotone)
      [] i = 7 -> {}                           \* func: nothing
-     [] i = 8 -> {-1, 4, 7}]                  \* func: Debug, Panic and an out-of-range level
+     [] i = 8 -> {-1, 4, 7}]                  \* func: Debug, Panic and every level above InvalidLevel
 
 VARIABLES tree, al, nset, h
 vars == <<tree, al, nset, h>>
